@@ -195,6 +195,8 @@ fn advance(procs: &mut [Proc], i: usize, trace: &mut Trace, go: bool) {
                         what: e.to_string(),
                     });
                 } else if l == "DONE" {
+                    let seq = trace.events.len();
+                    trace.events.push(Event { seq, proc: i, what: "EXIT".into() });
                     p.st = St::Done;
                     let _ = p.child.wait();
                     return;
@@ -347,7 +349,13 @@ fn execute(programs: &[&str], allow_crash: &[bool], prefix: &[usize], work: &Pat
 /// Returns (class key, description) for every violation of the property in this execution.
 fn judge(programs: &[&str], t: &Trace) -> Vec<(String, String)> {
     let mut out = vec![];
-    let crash_seq = |p: usize| t.crashed.iter().find(|(q, _)| *q == p).map(|(_, s)| *s);
+    // a process that is gone — killed or exited normally — no longer holds a flag
+    let crash_seq = |p: usize| {
+        t.events
+            .iter()
+            .find(|e| e.proc == p && (e.what == "CRASH" || e.what == "EXIT"))
+            .map(|e| e.seq)
+    };
     // lock windows of each process: (proc, lock_ok_seq, end_seq) where end = release_begin / crash / end
     let mut windows: Vec<(usize, usize, usize)> = vec![];
     for e in &t.events {
@@ -355,7 +363,7 @@ fn judge(programs: &[&str], t: &Trace) -> Vec<(String, String)> {
             let end = t
                 .events
                 .iter()
-                .find(|f| f.proc == e.proc && f.seq > e.seq && (f.what == "release_begin" || f.what == "CRASH"))
+                .find(|f| f.proc == e.proc && f.seq > e.seq && (f.what == "release_begin" || f.what == "CRASH" || f.what == "EXIT"))
                 .map(|f| f.seq)
                 .unwrap_or(usize::MAX);
             windows.push((e.proc, e.seq, end));
